@@ -322,6 +322,7 @@ class RuleResult:
         self.samples = []
         self.floor = 0
         self.notes = []
+        self.broken = None
 
     def instance(self, site_key, sample=None):
         self.instances += 1
@@ -337,9 +338,10 @@ class RuleResult:
     def require(self, floor, what=''):
         self.floor = floor
         if len(self.sites) < floor:
-            raise AnalysisBroken('rule %s examined %d distinct sites, floor is %d (%s): the anchor it is '
-                                 'filled from has vanished or the drivers no longer reach it'
-                                 % (self.rule, len(self.sites), floor, what))
+            # reported by conclude(): a violation found by another rule takes precedence over a vanished anchor
+            self.broken = ('rule %s examined %d distinct sites, floor is %d (%s): the anchor it is '
+                           'filled from has vanished or the drivers no longer reach it'
+                           % (self.rule, len(self.sites), floor, what))
 
     def summary(self):
         return {'rule': self.rule, 'decides': self.decides, 'instances': self.instances,
@@ -434,6 +436,11 @@ def conclude(prop, tier, results, runner, t0, explanation, assumptions, trusted,
             print('%s: [%s] %s\n    in %s\n    key %s' % (f.site, f.rule, f.message, f.where, f.key))
             print('VIOLATION property=%s replay=%s' % (prop, rp))
         return 1
+    broken = [r.broken for r in results if r.broken]
+    if broken:
+        for b in broken:
+            print('ANALYSIS-BROKEN: property=%s %s' % (prop, b))
+        return 2
     print('OK property=%s tier=%s instances=%d sites=%d units=%d wall=%.1fs' %
           (prop, tier, instances, sites, runner.units_run, time.time() - t0))
     return 0
